@@ -113,6 +113,7 @@ def check_codec_width(ctx: Ctx):
                 mx = _vertex_max(evn.result, [P, R, m], L)
                 n_ev += 1
                 ctx.decide("R09.1", f, evn.node, construct, f"largest value {mx} of {evn.result!r} fits container {evn.cont} (max {cap})", mx <= cap, {"max_value": mx, "container": evn.cont, "labels_up_to": L})
+    ctx.__dict__["_r091_events"] = n_ev
     if n_ev < 8:
         ctx.undecided("R09.1.floor", f, f.node, "floor:R09.1", f"{n_ev} arithmetic/cast events of the pair encoding inspected, confirmed floor is 8")
 
@@ -197,7 +198,9 @@ def check_codec_width_relational(ctx: Ctx):
                     ctx.violated("R09.1", f, evn.node, c2, f"{evn.what}: value {evn.value!r} can exceed the container {evn.cont} (max {CAP[evn.cont]}) and wraps around: candidate pairs are lost or corrupted", {"valuation": _show(w, refs, preds), "path": dtxt})
                 else:
                     ctx.undecided("R09.1", f, evn.node, c2, f"could not decide whether {evn.value!r} <= {CAP[evn.cont]}", {"path": dtxt})
-    if n < 8:
+    if n < 8 and ctx.__dict__.get("_r091_events", 0) < 8:
+        # (the voxel-wise run decides the same obligations under the paths' own value tests; this
+        # second view is required only when that one did not cover them)
         ctx.undecided("R09.1.floor", f, None, "floor:R09.1b", f"{n} container obligations of the pair encoding decided, confirmed floor is 8")
 
 
